@@ -404,6 +404,51 @@ func init() {
 	reg(func(c *Call) Val {
 		return &CoinsV{Plus: []Val{&minCoins{c.Ex.asCoins(c.Args[0]), c.Ex.asCoins(c.Args[1])}}}
 	}, CS("Min"))
+
+	// ---- DecCoins: the same amount functions, amounts scaled by 10^18 ----
+	DCS := func(n string) string { return "(" + sdkT + ".DecCoins)." + n }
+	reg(func(c *Call) Val {
+		return &CoinsV{Plus: []Val{&fnCoins{C: c.Ex.asCoins(c.Args[0]), F: func(x *smt.Term) *smt.Term { return smt.Mul(tE18(), x) }}}}
+	}, S("NewDecCoinsFromCoins"))
+	reg(func(c *Call) Val {
+		ex := c.Ex
+		d := t(c, 1)
+		return &CoinsV{Plus: []Val{&fnCoins{C: ex.asCoins(c.Args[0]), F: ex.decMulFn(d, truncE18, "multrunc")}}}
+	}, DCS("MulDecTruncate"))
+	reg(func(c *Call) Val {
+		ex := c.Ex
+		d := t(c, 1)
+		return &CoinsV{Plus: []Val{&fnCoins{C: ex.asCoins(c.Args[0]), F: ex.decMulFn(d, rhe, "mul")}}}
+	}, DCS("MulDec"))
+	reg(func(c *Call) Val {
+		v := c.Ex.asCoins(c.Args[0])
+		whole := &CoinsV{Plus: []Val{&fnCoins{C: v, F: func(x *smt.Term) *smt.Term { return smt.TDiv(x, tE18()) }}}}
+		change := &CoinsV{Plus: []Val{&fnCoins{C: v, F: func(x *smt.Term) *smt.Term { return smt.Sub(x, smt.Mul(tE18(), smt.TDiv(x, tE18()))) }}}}
+		return TupleV{whole, change}
+	}, DCS("TruncateDecimal"))
+	reg(func(c *Call) Val {
+		return &CoinsV{Plus: []Val{c.Ex.asCoins(c.Args[0]), c.Ex.asCoins(c.Args[1])}}
+	}, DCS("Add"))
+	reg(func(c *Call) Val {
+		a, b := c.Ex.asCoins(c.Args[0]), c.Ex.asCoins(c.Args[1])
+		r := &CoinsV{Plus: []Val{a}, Minus: []Val{b}}
+		ok := c.Ex.forallDenom(func(d *smt.Term) *smt.Term { return smt.Ge(c.Ex.amtOf(r, d), smt.IntC(0)) }, r)
+		if !c.Ex.branch(ok) {
+			c.Ex.goPanic("DecCoins.Sub: negative coin amount")
+		}
+		return r
+	}, DCS("Sub"))
+	reg(func(c *Call) Val { return c.Ex.amtOf(c.Ex.asCoins(c.Args[0]), t(c, 1)) }, DCS("AmountOf"))
+	reg(func(c *Call) Val {
+		v := c.Ex.asCoins(c.Args[0])
+		return c.Ex.forallDenom(func(d *smt.Term) *smt.Term { return smt.Eq(c.Ex.amtOf(v, d), smt.IntC(0)) }, v)
+	}, DCS("IsZero"), DCS("Empty"))
+	reg(func(c *Call) Val {
+		v := c.Ex.asCoins(c.Args[0])
+		nonneg := c.Ex.forallDenom(func(d *smt.Term) *smt.Term { return smt.Ge(c.Ex.amtOf(v, d), smt.IntC(0)) }, v)
+		zero := c.Ex.forallDenom(func(d *smt.Term) *smt.Term { return smt.Eq(c.Ex.amtOf(v, d), smt.IntC(0)) }, v)
+		return smt.And(nonneg, smt.Not(zero))
+	}, DCS("IsAllPositive"))
 	reg(func(c *Call) Val {
 		v := c.Ex.asCoins(c.Args[0])
 		d := t(c, 1)
@@ -602,6 +647,33 @@ func init() {
 
 // minCoins is the pointwise minimum (Coins.Min; amounts of valid coins are non-negative).
 type minCoins struct{ A, B Val }
+
+// decMulFn is x -> x * d (18-digit product with the given rounding) as a function that may be
+// applied under a quantifier over denoms: exact when d is constant or decimals are modelled exactly;
+// otherwise an uninterpreted function whose sign/zero/shrink facts are asserted once, quantified over x.
+func (ex *Exec) decMulFn(d *smt.Term, round func(*smt.Term) *smt.Term, tag string) func(*smt.Term) *smt.Term {
+	if isConst(d) || !ex.Cfg.DecAbstract {
+		return func(x *smt.Term) *smt.Term { return round(smt.Mul(x, d)) }
+	}
+	f := func(x *smt.Term) *smt.Term { return smt.App("decfn"+tag, smt.Int, x, d) }
+	ex.fresh++
+	x := smt.Var(fmt.Sprintf("x!%d", ex.fresh), smt.Int)
+	z, one := smt.IntC(0), tE18()
+	r := f(x)
+	ex.assume(smt.Forall([]*smt.Term{x}, smt.And(
+		smt.Implies(smt.Or(smt.Eq(x, z), smt.Eq(d, z)), smt.Eq(r, z)),
+		smt.Implies(smt.And(smt.Ge(x, z), smt.Ge(d, z)), smt.Ge(r, z)),
+		smt.Implies(smt.And(smt.Ge(x, z), smt.Ge(d, z), smt.Le(d, one)), smt.Le(r, x)),
+		smt.Implies(smt.Eq(d, one), smt.Eq(r, x)),
+	)))
+	return f
+}
+
+// fnCoins applies a function with F(0) = 0 to every amount (DecCoins conversions and products).
+type fnCoins struct {
+	C Val
+	F func(*smt.Term) *smt.Term
+}
 
 // scaledCoins is coins * integer (Coins.MulInt).
 type scaledCoins struct {
